@@ -258,6 +258,32 @@ def fmt_dt(d: dt.datetime) -> str:
     return d.astimezone(UTC).strftime("%Y-%m-%dT%H:%M:%S") + TS_SUFFIX
 
 
+import contextlib
+
+
+@contextlib.contextmanager
+def process_zone(tz, suffix):
+    """Run a block with the process time zone TZ=tz (None: unchanged) and timestamps written with the given suffix ('' = no offset)."""
+    import os
+    import time
+    global TS_SUFFIX
+    old_tz, old_suffix = os.environ.get("TZ"), TS_SUFFIX
+    if tz is not None:
+        os.environ["TZ"] = tz
+        time.tzset()
+    TS_SUFFIX = suffix
+    try:
+        yield
+    finally:
+        TS_SUFFIX = old_suffix
+        if tz is not None:
+            if old_tz is None:
+                os.environ.pop("TZ", None)
+            else:
+                os.environ["TZ"] = old_tz
+            time.tzset()
+
+
 def fmt_dur(td: dt.timedelta) -> str:
     """ISO 8601 duration (reference writer, independent of kskm)."""
     total = int(td.total_seconds())
